@@ -290,5 +290,47 @@ if __name__ == '__main__':
             with open(os.path.join(OUT, 'rekill.jsonl'), 'a') as f:
                 f.write(json.dumps({'id': mid, 'check': c, 'out': out.strip()[:600]}) + '\n')
         sh('git checkout -q -- .', cwd=krepo)
+    elif cmd == 'report':
+        # markdown summary of the whole sweep (filter + kill + rekill), written to stdout
+        from collections import Counter
+        st = statuses()
+        muts = {m['id']: m for m in json.load(open(os.path.join(OUT, 'list.json')))}
+        kills = {}
+        for f in sorted(os.listdir(OUT)):
+            if f.startswith('kill-') and f.endswith('.jsonl'):
+                for l in open(os.path.join(OUT, f)):
+                    d = json.loads(l)
+                    kills[d['id']] = d
+        rek = {}
+        if os.path.exists(os.path.join(OUT, 'rekill.jsonl')):
+            for l in open(os.path.join(OUT, 'rekill.jsonl')):
+                d = json.loads(l)
+                if 'verdict=violated' in d['out']:
+                    rek.setdefault(d['id'], d['check'])
+        c = Counter(st.values())
+        print('# Systematic single-line mutant sweep (tools/mutate.py)\n')
+        print('%d mutants generated from %d rules over src/ and macros/src/lib.rs (test modules, comments, Display code and the verif hooks excluded).\n' % (len(muts), len(RULES)))
+        print('| stage | count |\n|---|---|')
+        print('| do not compile | %d |' % c.get('nocompile', 0))
+        print('| fail the 185 tests | %d |' % c.get('testfail', 0))
+        print('| hang / crash the test run (killed by the suite, 120 s cap) | %d |' % c.get('hang-or-crash', 0))
+        print('| compile and pass all 185 tests (survivors) | %d |' % c.get('survivor', 0))
+        print('| survivors sent to the monitors (sampled: <= 12 per file, 24 for the macro crate, 18 for stream.rs; debugger excluded) | %d |' % len(kills))
+        killed = {k: v['killed_by'] for k, v in kills.items() if v['killed_by']}
+        for k, chk in rek.items():
+            if k in kills and k not in killed:
+                killed[k] = chk + ' (second pass)'
+        print('| of those, reported as VIOLATION by a quick check | %d |' % len(killed))
+        print('| not reported | %d |\n' % (len(kills) - len(killed)))
+        print('## Killed (mutant, site, change, first check that fired)\n')
+        for k in sorted(killed, key=lambda x: (kills[x]['file'], kills[x]['line'])):
+            d = kills[k]
+            print('- `%s` %s:%d `%s` -> `%s` : **%s**' % (k, d['file'], d['line'], d['old'][:70], d['new'][:70], killed[k]))
+        print('\n## Not reported (see the triage in DESIGN.md 10.5)\n')
+        for k in sorted(kills, key=lambda x: (kills[x]['file'], kills[x]['line'])):
+            if k in killed:
+                continue
+            d = kills[k]
+            print('- `%s` %s:%d `%s` -> `%s` (ran %s)' % (k, d['file'], d['line'], d['old'][:70], d['new'][:70], ', '.join(c for c, _ in d['log'])))
     elif cmd == 'kill':
         kill(sys.argv[2], int(sys.argv[3]), int(sys.argv[4]), sys.argv[5] if len(sys.argv) > 5 else 'quick')
